@@ -19,6 +19,7 @@
 #undef realloc
 
 #include "drv.h"
+#include <sys/uio.h>
 
 /*
  * Allocation seam for node blocks only: node_new.c and node_destroy.c of the
@@ -86,6 +87,53 @@ static char *lookup(const MPT_INTERFACE(config) *cfg, const char *str, int sep)
 	}
 	return g.text;
 }
+/*
+ * The same question as a TYPED query (target type + destination) through
+ * mpt_config_getp (useget = 0) or mpt_config_get (useget = 1, separator '.'):
+ * type 's' first; when that is answered with an error the character vector
+ * (the type long values convert to).  The destination is preset with a marker
+ * so that "success without writing the destination" is seen.
+ * Returns a code (see j_item_typed) and the text.
+ */
+static int lookup_typed(const MPT_INTERFACE(config) *cfg, const char *str, int sep, int useget, char **text)
+{
+	static const char marker[] = "<untouched>";
+	MPT_STRUCT(path) p = MPT_PATH_INIT;
+	const char *val = marker;
+	struct iovec vec;
+	int r;
+	*text = 0;
+	p.sep = (char) sep;
+	if (str && !useget) mpt_path_set(&p, str, -1);
+	r = useget ? mpt_config_get(cfg, str, 's', &val) : mpt_config_getp(cfg, &p, 's', &val);
+	if (r >= 0) {
+		if (val == marker) return -2;
+		if (!val) return -3;
+		*text = copy_text(val, (size_t) -1);
+		return 0;
+	}
+	vec.iov_base = (void *) marker;
+	vec.iov_len = 0;
+	r = useget ? mpt_config_get(cfg, str, MPT_type_toVector('c'), &vec)
+	           : mpt_config_getp(cfg, &p, MPT_type_toVector('c'), &vec);
+	if (r < 0) return -1;
+	if (vec.iov_base == (void *) marker) return -2;
+	if (!vec.iov_base) return vec.iov_len ? -3 : (*text = copy_text("", 0), 0);
+	*text = copy_text((const char *) vec.iov_base, vec.iov_len);
+	return 0;
+}
+static void emit_typed(const char *key, const MPT_INTERFACE(config) *cfg, char **list, int n, int useget)
+{
+	int i;
+	j_arr_open(key);
+	for (i = 0; i < n; i++) {
+		char *t = 0;
+		int code = lookup_typed(cfg, list[i], usep, useget, &t);
+		j_item_typed(code, t);
+		free(t);
+	}
+	j_arr_close();
+}
 /* the same question through mpt_config_get / mpt_config_getp with type 's' (diagnostic) */
 static int lookup_s(const MPT_INTERFACE(config) *cfg, const char *str, int sep)
 {
@@ -124,6 +172,13 @@ static void emit_store(struct cmd *c, const char *ret, const char *retval, int i
 		free(v);
 	}
 	j_arr_close();
+	/* every path once more through the typed entry points */
+	emit_typed("typed", 0, uni, nuni, 0);
+	if (usep == '.') emit_typed("tget", 0, uni, nuni, 1);
+	if (viewcfg) {
+		emit_typed("relt", viewcfg, reluni, nrel, 0);
+		if (usep == '.') emit_typed("reltget", viewcfg, reluni, nrel, 1);
+	}
 	drv_dbg();
 	j_int("present", present);     /* paths of the universe that have a value ... */
 	j_int("as_s", as_s);           /* ... and how many of them mpt_config_get(.., 's') answers */
